@@ -271,32 +271,6 @@ pub fn check_program(p: &Program, st: &mut Stats, order: u64, part: &str) -> Opt
             }
         }
     }
-    // by_name returns the last entry with that name
-    if ok && !p.entries.is_empty() {
-        if let Ok(mut ar) = zip::ZipArchive::new(Cursor::new(&bytes_f[..])) {
-            for (i, e) in p.entries.iter().enumerate() {
-                let n = e.expected_name();
-                let last = p.entries.iter().rposition(|x| x.expected_name() == n).unwrap_or(i);
-                let got = crate::util::guard(|| ar.by_name(&n).map(|f| f.central_header_start()));
-                match got {
-                    Ok(Ok(chs)) => {
-                        if chs != obs.entries[last].central_header_start {
-                            ok = false;
-                            bad("by_name", Some(e), format!("by_name({:?}) does not return the last entry with that name", crate::util::show(n.as_bytes())), st);
-                        }
-                    }
-                    Ok(Err(er)) => {
-                        ok = false;
-                        bad("by_name", Some(e), format!("by_name({:?}) failed: {er}", crate::util::show(n.as_bytes())), st);
-                    }
-                    Err(pn) => {
-                        ok = false;
-                        bad("by_name-panic", Some(e), format!("by_name panicked: {pn}"), st);
-                    }
-                }
-            }
-        }
-    }
     if ok {
         let first = p.entries.first().map(|e| format!("{}:{}", ["file", "dir", "symlink"][e.kind.min(2) as usize], mname(e.expected_method()))).unwrap_or("empty".into());
         st.class(&format!("roundtrip-ok/{}-entries/first={first}", p.entries.len()));
